@@ -347,7 +347,7 @@ def check_interleaving(case, ctx):
     objs = [mk_teams(shared, job["teams"]) for job in jobs]
     thunks = [lambda job=job, o=o: run_job(shared, job, o) for job, o in zip(jobs, objs)]
     points = sorted((1 + int(fr * total), th) for fr, th in pre)
-    s = Scheduler(thunks, points, opcodes=bool(case.get("opcodes")), watch=shared, on_write=case.get("on_write") or ())
+    s = Scheduler(thunks, points, opcodes=bool(case.get("opcodes")), watch=shared, on_write=case.get("on_write") or (), on_touch=case.get("on_touch") or ())
     results, errors = s.run()
     ctx.called(2 * len(jobs))
     for i, (r, e, x) in enumerate(zip(results, errors, expected)):
@@ -358,8 +358,26 @@ def check_interleaving(case, ctx):
                             f"{cfg['kind']} job {i} {jobs[i]['op']}({jobs[i].get('call', {})}) under schedule {s.trace} (of {total} steps): {r!r} != sequential {x!r}"[:1200])
     if snapshot(shared) != before:
         raise Violation("attr-changed-under-interleaving", f"{cfg['kind']} model attributes changed")
+    if s.touches > 0 and len(jobs) > 1:
+        # the jobs executed code that touches process-wide mutable state: explore it systematically - ONE preemption at each of its first steps,
+        # to each other thread (a CHESS-style bound-1 sweep; costs nothing on a tree without such state)
+        for k in range(min(s.touches, 12)):
+            for tgt in range(1, len(jobs)):
+                sh2 = mk_model(cfg)
+                objs2 = [mk_teams(sh2, job["teams"]) for job in jobs]
+                th2 = [lambda job=job, o=o, sh2=sh2: run_job(sh2, job, o) for job, o in zip(jobs, objs2)]
+                s2 = Scheduler(th2, [], opcodes=bool(case.get("opcodes")), watch=sh2, on_touch=[None] * k + [tgt])
+                r2, e2 = s2.run()
+                ctx.called(len(jobs))
+                for i, (r, e, x) in enumerate(zip(r2, e2, expected)):
+                    if e is not None:
+                        raise Violation(f"raised-under-interleaving:{type(e).__name__}", f"{cfg['kind']} job {i} {jobs[i]['op']} raised {e!r} when preempted at step {k} of the shared-state code ({s2.trace})")
+                    if r != x:
+                        raise Violation(f"interleaving-dependent:{jobs[i]['op']}",
+                                        f"{cfg['kind']} job {i} {jobs[i]['op']} with ONE preemption at step {k} of the code that touches process-wide state ({s2.trace}): {r!r} != sequential {x!r}"[:1200])
+        ctx.label("systematic-shared-state-sweep")
     ctx.label(f"jobs:{len(jobs)}", f"switches:{min(s.switches, 6)}", "granularity:" + ("bytecode" if case.get("opcodes") else "line"),
-              f"shared-writes-seen:{min(s.writes, 3)}")
+              f"shared-writes-seen:{min(s.writes, 3)}", f"steps-in-shared-state-code:{min(s.touches, 3)}")
     ctx.nontrivial_if(s.switches >= 1)
 
 
@@ -382,7 +400,9 @@ def interleaving_cases(draw, min_pre=None):
     pre = draw(st.lists(st.tuples(st.floats(0.0, 1.0), st.integers(0, k - 1)).map(list),
                         min_size=draw(st.sampled_from([0, 1, 1, 2])) if min_pre is None else max(min_pre, draw(st.integers(1, 3))), max_size=6))
     on_write = draw(st.lists(st.one_of(st.none(), st.integers(0, k - 1)), min_size=0, max_size=4))
-    return {"cfg": cfg, "jobs": jobs, "preemptions": pre, "opcodes": draw(st.integers(0, 3)) == 0, "on_write": on_write}
+    # preemptions at the first steps executed inside functions that touch process-wide mutable state (none exist in a tree without such state)
+    on_touch = draw(st.lists(st.one_of(st.none(), st.none(), st.integers(0, k - 1)), min_size=0, max_size=12))
+    return {"cfg": cfg, "jobs": jobs, "preemptions": pre, "opcodes": draw(st.integers(0, 3)) == 0, "on_write": on_write, "on_touch": on_touch}
 
 
 # ------------------------------------------------------------------------------------------------
@@ -541,6 +561,17 @@ def cold_custom(ctx, seed, tier, shard, nshards, n):
             v.case = case
             raise
         ctx.called(2 * len(case["jobs"]))
+        if out.get("touches", 0) > 0 and len(case["jobs"]) > 1:
+            # first-use code that touches process-wide state was executed: ONE preemption at each of its first steps, each in its own fresh child
+            for kk in range(min(out["touches"], 10)):
+                case2 = dict(case, preemptions=[], on_write=[], on_touch=[None] * kk + [1 + kk % (len(case["jobs"]) - 1)])
+                try:
+                    run_cold(case2, f"{shard}-{k}-t{kk}")
+                except Violation as v:
+                    v.case = case2
+                    raise
+                ctx.called(len(case["jobs"]))
+            ctx.label("systematic-shared-state-sweep")
         ctx.label(f"switches:{min(out['switches'], 6)}", "ops:" + "+".join(sorted(set(j["op"] for j in case["jobs"]))))
         ctx.nontrivial_if(out["switches"] >= 1)
         ctx.end()
